@@ -15,7 +15,7 @@ for pid, p in reg["properties"].items():
         if f not in funcs:
             funcs.append(f)
 repo = os.environ.get("VERIF_REPO", "/repo")
-cmd = [os.path.join(V, "bin", "govc"), "-repo", repo, "-verif", V, "-pkgs", ",".join(pkgs), "-funcs", ",".join(funcs), "-timeout", sys.argv[1] if len(sys.argv) > 1 else "20", "-out", "/tmp/scratch/pall.json"]
+cmd = [os.environ.get("GOVC", os.path.join(V, "bin", "govc")), "-repo", repo, "-verif", V, "-pkgs", ",".join(pkgs), "-funcs", ",".join(funcs), "-timeout", sys.argv[1] if len(sys.argv) > 1 else "20", "-out", "/tmp/scratch/pall.json"]
 os.makedirs("/tmp/scratch", exist_ok=True)
 subprocess.run(cmd)
 r = json.load(open("/tmp/scratch/pall.json"))
